@@ -381,7 +381,7 @@ theorem handleReq_rx (st : State) (addr : String) (seq : BitVec 24) (r : Req) (e
       obtain ⟨s16, c16, u16⟩ := R
       simp only []
       refine rxStep_of_sendRsp st _ ?_ addr seq _ ?_ _
-      · cases m.nodeID <;> exact ⟨rfl, rfl, rfl, rfl⟩
+      · unfold State.takeover; cases m.nodeID <;> exact ⟨rfl, rfl, rfl, rfl⟩
       · rfl
   | del x =>
     simp only [handleReq]
@@ -411,14 +411,16 @@ theorem serveLoop_rx (x : Seid) (dest : String) :
   | .dldr pdr act pkt :: rest, st, c, us => by
     unfold serveLoop
     simp only []
+    have h1 : (st.pushPkt x pdr act pkt).rx = st.rx := by
+      unfold State.pushPkt
+      split
+      · split <;> rfl
+      · rfl
     split
-    · split <;> (try split) <;> rfl
+    · exact h1
     · split
-      · rename_i hs
-        rw [serveLoop_rx x dest rest]
-        split <;> (try split) <;> rfl
-      · rw [serveLoop_rx x dest rest]
-        split <;> (try split) <;> rfl
+      · rw [serveLoop_rx x dest rest]; exact h1
+      · rw [serveLoop_rx x dest rest]; exact h1
 
 theorem serveReport_rx (st : State) (x : Seid) (items : List RepItem) (c : Ctx) :
     (serveReport st x items c).1.rx = st.rx := by
@@ -504,6 +506,6 @@ theorem handleMod_lnode (st : State) (addr : String) (seq : BitVec 24) (r : ModR
   have he := emitUsars_ids s16 u16 0 true
   refine ⟨(emitUsars s16 u16 0 true).1, by rw [he.1, hid], by rw [he.2.1, hrid], by rw [he.2.2.1, hnode], ?_⟩
   rw [(sendRsp_spec _ addr _ c16).2.1]
-  cases r.nodeID <;> rfl
+  simp [State.setSess]
 
 end UpfVerif.Core
